@@ -14,4 +14,4 @@ def run(ctx):
     jobs = sessions(ctx, cfgs, "C18")
     finish(ctx, jobs, "C18")
     ctx.exhaustive = True
-    ctx.assumptions += ["defects are built by the generator (branch, cycle3, cycle3in); chromosomes joined through a haplotype node are a planned addition"]
+    ctx.assumptions += ["defects are built by the generator: branch, branchalt, join (a piece of another contig attached through a haplotype node), cycle3, cycle3in"]
